@@ -28,9 +28,10 @@ THOROUGH_JOBS = 8000
 WALL_CAP = {"quick": 240.0, "thorough": 3300.0}
 STATE_MEASURE = "distinct (pool size, task count, switch probability, set of targets in the pool, mode: sequential / switch inside a write / hash-seed processes) combinations; interleavings are counted separately as distinct recorded scheduler decision sequences"
 
-RULE = ("one case = (pool of 1-3 related generated models, 1-3 tasks of up to 25 operations each: build, write, evaluate "
-        "energy/force/embedding/density at grid and off-grid points, write with an injected evaluation failure, read .workbook, "
-        "drop+gc, clock jump; a seeded scheduler switches tasks at evaluation and write boundaries) with every operation compared "
+RULE = ("one case = (pool of 1-3 related generated models - .ini models, or in 15 % of the cases models built through the Python API "
+        "with user callables incl. TableReader - and 1-3 tasks of up to 25 operations each: build, write, evaluate "
+        "energy/force/embedding/density at grid and off-grid points and in bursts at one function's own range boundaries, write with "
+        "an injected evaluation failure, read .workbook, drop+gc, clock jump; a seeded scheduler switches tasks at evaluation and write boundaries) with every operation compared "
         "against a pristine per-model reference child (output bytes, IEEE-754 bits of every evaluation); for a seeded subset the "
         "models are also written in fresh interpreters under 3-6 PYTHONHASHSEED values. non-trivial = (>=2 models or >=2 tasks, and "
         ">=1 task switch strictly inside a write) or a cross-process comparison under >=2 hash seeds or an Excel write compared "
